@@ -7,6 +7,7 @@
 //!                                  "steps": [{"op":"add","v":<value>} | {"op":"drain"} | {"op":"merge"}]}
 //!                                  (a final drain is implied); output: {"id","drains":[{"obs","re"}],"panic"}
 //! `hist conc --values f --threads n --per k --seed s --out g`
+//! `hist race --values f --threads 2|3 --rounds r --per-round n --seed s --out g`   short-lived shared histograms
 //!
 //! Values: f64 / f32 as their bit patterns (integers), u64 as integers, durations as [secs, nanos],
 //! observations as ["u", n] | ["f", bits] | ["r", total_bits, occurrences].
@@ -286,11 +287,90 @@ fn cmd_conc(a: &HashMap<String, String>) {
     out.flush().unwrap();
 }
 
+/// Many SHORT-LIVED shared histograms: per round `per_round` fresh SharedHistograms, `threads` threads sweep the
+/// array (forward / backward / from the middle) and record ONE value per histogram each, so that somewhere the
+/// threads are inside add_value of the same histogram at the same instant; then every histogram is closed at once
+/// (nothing recorded later can repair a summary) and compared with the non-atomic histogram fed the same values.
+fn cmd_race(a: &HashMap<String, String>) {
+    use rand::Rng;
+    let vals: Vec<f64> = util::read_ndjson(util::arg_str(a, "values", ""))[0].as_array().unwrap().iter().map(f64_of).collect();
+    let threads = util::arg_u64(a, "threads", 2) as usize;
+    let rounds = util::arg_u64(a, "rounds", 200) as usize;
+    let per_round = util::arg_u64(a, "per-round", 512) as usize;
+    let seed = util::arg_u64(a, "seed", 1);
+    let keep = util::arg_u64(a, "keep", 40) as usize;
+    let mut rng = util::rng(seed);
+    let (mut recorded, mut closed_total, mut mismatches, mut histograms) = (0u64, 0u64, 0u64, 0u64);
+    let mut kept: Vec<J> = Vec::new();
+    let occ_sum = |obs: &J| -> u64 {
+        obs.as_array().unwrap().iter().map(|o| if o[0] == "r" { o[2].as_u64().unwrap() } else { 1 }).sum()
+    };
+    for round in 0..rounds {
+        // per histogram: one value per thread; half of the time a far-apart (large, small) pair in random order
+        let n = vals.len();
+        let picks: Vec<Vec<usize>> = (0..per_round)
+            .map(|_| {
+                let mut v: Vec<usize> = (0..threads).map(|_| rng.random_range(0..n)).collect();
+                if rng.random_ratio(1, 2) {
+                    let (small, large) = (rng.random_range(0..n / 8), n - 1 - rng.random_range(0..n / 8));
+                    let at = rng.random_range(0..threads);
+                    v[at] = large;
+                    v[(at + 1) % threads] = small;
+                }
+                v
+            })
+            .collect();
+        let hs: Vec<SharedHistogram<f64, AtomicExponentialAggregationStrategy>> =
+            (0..per_round).map(|_| SharedHistogram::default()).collect();
+        let barrier = std::sync::Barrier::new(threads);
+        std::thread::scope(|s| {
+            for t in 0..threads {
+                let (hs, picks, vals, barrier) = (&hs, &picks, &vals, &barrier);
+                s.spawn(move || {
+                    barrier.wait();
+                    for k in 0..per_round {
+                        let i = match t {
+                            0 => k,
+                            1 => per_round - 1 - k,
+                            _ => (per_round / 2 + k) % per_round,
+                        };
+                        hs[i].add_value(vals[picks[i][t]]);
+                    }
+                });
+            }
+        });
+        for (i, h) in hs.into_iter().enumerate() {
+            let got = observe(&h.close()).unwrap();
+            let mut seq: Histogram<f64, ExponentialAggregationStrategy> = Histogram::default();
+            for t in 0..threads {
+                seq.add_value(vals[picks[i][t]]);
+            }
+            let want = observe(&seq.close()).unwrap();
+            histograms += 1;
+            recorded += threads as u64;
+            closed_total += occ_sum(&got);
+            if got != want {
+                mismatches += 1;
+            }
+            if (got != want && kept.len() < keep) || (round == 0 && i < 8) {
+                kept.push(json!({"round": round, "index": i, "values": picks[i].iter().map(|&j| vals[j].to_bits()).collect::<Vec<_>>(),
+                                 "atomic": got, "seq": want, "mismatch": got != want}));
+            }
+        }
+    }
+    let mut out = std::io::BufWriter::new(std::fs::File::create(util::arg_str(a, "out", "")).unwrap());
+    serde_json::to_writer(&mut out, &json!({"threads": threads, "histograms": histograms, "recorded": recorded,
+                                            "closed_total": closed_total, "mismatches": mismatches, "kept": kept})).unwrap();
+    out.write_all(b"\n").unwrap();
+    out.flush().unwrap();
+}
+
 fn main() {
     let (cmd, a) = util::args();
     match cmd.as_str() {
         "run" => cmd_run(&a),
         "conc" => cmd_conc(&a),
+        "race" => cmd_race(&a),
         _ => {
             eprintln!("usage: hist run|conc ...");
             std::process::exit(2);
